@@ -5,9 +5,10 @@ import FmtModel.Classes.Datetime
 
   `Spec.scan` is the independent left-to-right tokeniser.  Proved here, on the regenerated
   tokeniser texts:
-  * the parse side and the format side use ONE token language: the pattern of `gen_format`
-    is `%%` or a directive, the pattern of `format` is a directive, and `format` removes `%%`
-    first (`C12_token_patterns`);
+  * the parse side and the format side use ONE tokeniser: `gen_format` and `format` both run a single
+    left-to-right `re.sub` with the same pattern — `%%` or a directive (`C12_token_patterns`; `format` used
+    to substitute token by token on the evolving string, so that a rendered text or a literal `%-` could make
+    up a new directive: repaired in /repo);
   * for every format string over the property's alphabet up to length 4, for Serial, the pattern
     `gen_format` builds equals the pattern the independent tokeniser builds and `format` renders
     what the independent tokeniser renders, including the two error kinds (`C12_bounded_*`,
@@ -67,9 +68,9 @@ end Spec
 /-- the two tokeniser patterns describe one token language -/
 theorem C12_token_patterns :
     Gen.gen_format_token_re = "%%|%[-+!*]?[A-Za-z]".toList
-  ∧ Gen.format_token_re = "(%[-+!*]?[A-Za-z])".toList
-  ∧ Gen.regex_token_re = Gen.format_token_re ∧ Gen.from_value_token_re = Gen.format_token_re
-  ∧ Gen.gen_format_percent = ['%'] ∧ Gen.format_escape = "[ESCAPE]".toList := by decide
+  ∧ Gen.format_token_re = Gen.gen_format_token_re ∧ Gen.format_single_pass = true
+  ∧ Gen.regex_token_re = "(%[-+!*]?[A-Za-z])".toList ∧ Gen.from_value_token_re = Gen.regex_token_re
+  ∧ Gen.gen_format_percent = ['%'] ∧ Gen.format_percent = ['%'] := by decide
 
 def atoms : List Str := ["%n", "%c", "%Q", "%%", "%", "x", "-"].map String.toList
 
